@@ -398,9 +398,10 @@ def oracle_project(job: Dict[str, Any], res: Dict[str, Any], base: Dict[str, Any
         if len(res['pages']) != len(base['pages']):
             return 'pages written: %d, with the harmless payload: %d' % (len(res['pages']), len(base['pages']))
         for kind in ('elems', 'attrs', 'entities'):
-            if a[kind] != b[kind]:
-                diff = {k: (a[kind].get(k, 0), b[kind].get(k, 0)) for k in set(a[kind]) | set(b[kind])
-                        if a[kind].get(k, 0) != b[kind].get(k, 0)}
+            # <wbr> break opportunities are inserted into names at dots / case changes: their number follows the module name
+            diff = {k: (a[kind].get(k, 0), b[kind].get(k, 0)) for k in set(a[kind]) | set(b[kind])
+                    if a[kind].get(k, 0) != b[kind].get(k, 0) and k != 'wbr'}
+            if diff:
                 return '%s differ from the harmless project (payload, harmless): %s' % (kind, dict(sorted(diff.items())[:8]))
     return None
 
@@ -604,13 +605,17 @@ class Check(PropertyCheck):
         out: List[Violation] = []
         self._nt: set = set()
         self._xml_pending: List[Any] = []
+        self._caps = {}
         out += self.check_units()
         out += self.check_projects()
         self.stats["distinct_nontrivial"] = len(self.nontrivial)
         return out
 
     def viol(self, out: List[Violation], kind: str, what: str, case: Any, expected: Any = None, observed: Any = None) -> None:
-        if len([v for v in out if v.kind == kind]) < 12:
+        # at most 6 per kind of message and per kind of case, so that one (possibly known) class cannot hide another
+        key = (kind, what[:24], case[0] if isinstance(case, list) else 'project')
+        self._caps[key] = self._caps.get(key, 0) + 1
+        if self._caps[key] <= 6:
             out.append(Violation(kind, what, case=case, expected=expected, observed=observed))
 
     def check_units(self, oracle_only: bool = False) -> List[Violation]:
@@ -922,6 +927,7 @@ class Check(PropertyCheck):
         return found
 
     _known_cache: Dict[str, bool] = {}
+    _caps: Dict[Any, int] = {}
 
     def classify_known(self, v: Violation, known: List[dict]) -> Optional[dict]:
         for k in known:
